@@ -304,7 +304,8 @@ std::string propTsm(const FmmCase& c, const std::string& prop){
 #endif
 
     // ---- C13 / C07 / C06 on target/source trees: structure and construction of both trees, then move / rebuild / execute cycles
-    if(prop == "C13" || prop == "C07" || prop == "C06"){
+    // (C09 as well: "after a full execution" also holds for the executions that follow a move + rebuild with the SAME executor object)
+    if(prop == "C13" || prop == "C07" || prop == "C06" || (prop == "C09" && !c.cycles.empty())){
         FmmCase cc = c;
         auto treeR = buildTree(cc, config, inS, inT);
         const long bsUsedS = treeR->getNbElementsPerGroupSource(), bsUsedT = treeR->getNbElementsPerGroupTarget();
@@ -325,12 +326,13 @@ std::string propTsm(const FmmCase& c, const std::string& prop){
         if(!e.empty()) return e;
         std::vector<gf::Val> acc(cc.tpos.size(), gf::zero());
         probe::Ctx ctxR(c.salt); 
+        std::unique_ptr<SeqAlgo> seqR;
         auto executeR = [&]() -> std::string {
             ctxR.reset(); ctxR.multAddr.clear(); ctxR.localAddr.clear();
             ctxR.dim = Dim; ctxR.height = H; ctxR.base = H - 1; ctxR.tagSrc = 0; ctxR.tagTgt = 1;
             ctxR.leafOf[0] = &rs.leafOf; ctxR.leafOf[1] = &rt.leafOf; ctxR.rows[0] = &rowsS; ctxR.rows[1] = &rowsT;
-            SeqAlgo seq(config, Kernel(&ctxR));
-            seq.execute(*treeR);
+            if(!seqR) seqR.reset(new SeqAlgo(config, Kernel(&ctxR)));    // one executor object for the whole move / rebuild / execute history
+            seqR->execute(*treeR);
             if(!ctxR.errors.empty()) return "arguments after rebuild: " + ctxR.errors.front();
             rm::Expect exr(ctxR.P, rs, false, 0);
             std::map<Coord, gf::Val> perLeaf;
@@ -427,6 +429,7 @@ pbt::GenCfg cfgFor(const std::string& prop, const hc::Args& a){
     if(prop == "C15" || prop == "C09" || prop == "C06" || prop == "C07" || prop == "C13") g.emptySets = true;
     if(prop == "C09"){ g.histories = true; g.historyOneIn = 4; }   // a full execution may be issued as several execute() calls (README, flag list)
     if(prop == "C13"){ g.cycles = true; g.maxCycles = 3; g.lstops = false; }
+    if(prop == "C09" && RT == 0 && a.getInt("cycles", 0)){ g.cycles = true; g.maxCycles = 2; g.lstops = false; g.histories = false; }
     return g;
 }
 
